@@ -8,7 +8,7 @@ from .guardlib import gval, comparisons, lt_true, ge_true
 
 MANIFEST = {
     "text": "Pairing and who-may-call rules on the reference-counted buffer: every additional view of a heap buffer (ptr::read in clone, Tendril::shared in unsafe_subtendril) is preceded by make_buf_shared and incref; Drop destroys the buffer on exactly two edges (unshared; shared and decrement()==1 followed by the acquire fence) and nothing else calls destroy; the atomic counter is updated by single read-modify-write operations; an inline tag overwrites self.ptr only when the tendril is inline; into_send passes make_owned before re-labelling; ownership-duplicating primitives occur only in the reviewed functions; the only unsafe Send impl is SendTendril's. Plus reviewed normal forms of tendril.rs and buf32.rs.",
-    "note": "Decides R12.1-R12.6. Not decided: bounds of raw pointer arithmetic, capacity rounding, the memory model of the fence; compile-fail witnesses for !Send / !Sync run in the thorough tier only. Also decided: inline and heap branch of push_bytes_without_validating lay the bytes out identically; the heap write starts at len - drop_left (R12.7). Also decided: no panic site while a Vec aliases the buffer in Buf32 (R12.8). Round 6: Tendril::inline only under length <= MAX_INLINE_LEN (R12.10).",
+    "note": "Decides R12.1-R12.6. Not decided: bounds of raw pointer arithmetic, capacity rounding, the memory model of the fence; compile-fail witnesses for !Send / !Sync run in the thorough tier only. Also decided: inline and heap branch of push_bytes_without_validating lay the bytes out identically; the heap write starts at len - drop_left (R12.7). Also decided: no panic site while a Vec aliases the buffer in Buf32 (R12.8). Round 6: Tendril::inline only under length <= MAX_INLINE_LEN (R12.10). Round 8: R12.11 = R11.1 / R11.4 (copy on write before a mutable view; zero-copy merge only for exactly adjacent views of one shared buffer).",
     "technique": "pairing / who-may-call rules over MIR (resolved callees, impl facts) and function normal forms",
 }
 LEVEL = "other"
